@@ -1,0 +1,147 @@
+//go:build verif
+// +build verif
+
+// Contracts for package services (build tag verif only; no executable code).
+package services
+
+import (
+	pb "github.com/marekgalovic/anndb/protobuf"
+	"github.com/marekgalovic/anndb/storage"
+	uuid "github.com/satori/go.uuid"
+)
+
+var _ pb.Dataset
+var _ storage.Dataset
+var _ uuid.UUID
+
+// ---------------------------------------------------------------------------------------------
+// C12: the RPC boundary. A handler is verified for an ARBITRARY well-typed request: nothing is required of `req` (any byte
+// lengths, any numbers, nil maps and slices). What is required is the server's own wiring and the catalogue invariant.
+// Every panic site in the handler and every precondition of the storage method it calls is an obligation here.
+// [decoded]: the request is what protobuf decoding produces - a non-nil message whose repeated message fields have no nil element.
+// [enum-table]: the generated name table of the Space enum has exactly the three defined values.
+//@ spec served(s *dataManagerServer) bool = s != nil && s.datasetManager != nil && wfCatalogue(s.datasetManager)
+
+//@ func (*services.dataManagerServer).Insert
+//@ props C12
+//@ requires [wired] served(this) && !isnil(ctx)
+//@ modifies *
+//@ func (*services.dataManagerServer).Update
+//@ props C12
+//@ requires [wired] served(this) && !isnil(ctx)
+//@ modifies *
+//@ func (*services.dataManagerServer).Remove
+//@ props C12
+//@ requires [wired] served(this) && !isnil(ctx)
+//@ modifies *
+//@ func (*services.dataManagerServer).BatchInsert
+//@ props C12
+//@ requires [wired] served(this) && !isnil(ctx)
+//@ requires [decoded] req != nil && noNilItems(req.Items)
+//@ modifies *
+//@ func (*services.dataManagerServer).BatchUpdate
+//@ props C12
+//@ requires [wired] served(this) && !isnil(ctx)
+//@ requires [decoded] req != nil && noNilItems(req.Items)
+//@ modifies *
+//@ func (*services.dataManagerServer).BatchRemove
+//@ props C12
+//@ requires [wired] served(this) && !isnil(ctx)
+//@ requires [decoded] req != nil && noNilItems(req.Items)
+//@ modifies *
+//@ func (*services.dataManagerServer).PartitionBatchInsert
+//@ props C12
+//@ requires [wired] served(this) && !isnil(ctx)
+//@ requires [decoded] req != nil && noNilItems(req.Items)
+//@ modifies *
+//@ func (*services.dataManagerServer).PartitionBatchUpdate
+//@ props C12
+//@ requires [wired] served(this) && !isnil(ctx)
+//@ requires [decoded] req != nil && noNilItems(req.Items)
+//@ modifies *
+//@ func (*services.dataManagerServer).PartitionBatchRemove
+//@ props C12
+//@ requires [wired] served(this) && !isnil(ctx)
+//@ requires [decoded] req != nil && noNilItems(req.Items)
+//@ modifies *
+//@ func (*services.dataManagerServer).PartitionInfo
+//@ props C12
+//@ requires [wired] served(this) && !isnil(ctx)
+//@ modifies *
+
+//@ func (*services.dataManagerServer).errorsMapToBatchResponse
+//@ props C12
+//@ ensures [map] ret != nil
+//@ modifies nothing
+
+//@ func fmt.Sprintf
+//@ props C12
+//@ assume
+//@ modifies nothing
+//@ func (github.com/satori/go.uuid.UUID).String
+//@ props C12
+//@ assume
+//@ modifies nothing
+
+//@ spec servedS(s *searchServer) bool = s != nil && s.datasetManager != nil && wfCatalogue(s.datasetManager)
+//@ func (*services.searchServer).Search
+//@ props C12
+//@ requires [wired] servedS(this) && !isnil(stream)
+//@ modifies *
+//@ func (*services.searchServer).SearchPartitions
+//@ props C12
+//@ requires [wired] servedS(this) && !isnil(stream)
+//@ modifies *
+
+//@ func iface:protobuf.Search_SearchServer.Send
+//@ props C12
+//@ assume
+//@ modifies nothing
+//@ func iface:protobuf.Search_SearchServer.Context
+//@ props C12
+//@ assume
+//@ ensures [ctx] !isnil(ret)
+//@ modifies nothing
+//@ func iface:protobuf.Search_SearchPartitionsServer.Send
+//@ props C12
+//@ assume
+//@ modifies nothing
+//@ func iface:protobuf.Search_SearchPartitionsServer.Context
+//@ props C12
+//@ assume
+//@ ensures [ctx] !isnil(ret)
+//@ modifies nothing
+
+//@ spec servedM(s *datasetManagerServer) bool = s != nil && s.manager != nil && wfCatalogue(s.manager)
+//@ func (*services.datasetManagerServer).List
+//@ props C12
+//@ requires [wired] servedM(this) && !isnil(stream)
+//@ modifies *
+//@ func (*services.datasetManagerServer).Get
+//@ props C12
+//@ requires [wired] servedM(this) && !isnil(ctx)
+//@ modifies *
+//@ func (*services.datasetManagerServer).Create
+//@ props C12
+//@ requires [wired] servedM(this) && !isnil(ctx)
+//@ requires [decoded] req != nil
+//@ requires [enum-table] forall k int32 :: has(pb.Space_name, k) == (0 <= k && k <= 2)
+//@ modifies *
+//@ func (*services.datasetManagerServer).Delete
+//@ props C12
+//@ requires [wired] servedM(this) && !isnil(ctx)
+//@ modifies *
+//@ func (*services.datasetManagerServer).GetDatasetSize
+//@ props C12
+//@ requires [wired] servedM(this) && !isnil(ctx)
+//@ modifies *
+
+//@ func iface:protobuf.DatasetManager_ListServer.Send
+//@ props C12
+//@ assume
+//@ modifies nothing
+//@ func iface:protobuf.DatasetManager_ListServer.Context
+//@ props C12
+//@ assume
+//@ ensures [ctx] !isnil(ret)
+//@ modifies nothing
